@@ -170,7 +170,8 @@ Finish(dt) ==
        /\ prev' = InWindow(t) \cup {[t |-> t, lat |-> cur]}
        /\ last' = [has |-> TRUE, pref |-> choice,
                    var4 |-> Inherit(rep.var4, last.var4), var6 |-> Inherit(rep.var6, last.var6)]
-       /\ hist' = Append(hist, [dt |-> dt, lat |-> Iter(cur), prevpref |-> pp, allowed |-> al, choice |-> choice,
+       /\ hist' = Append(hist, [dt |-> dt, probes |-> seq, agg |-> Snapshot(rep),
+                                lat |-> Iter(cur), prevpref |-> pp, allowed |-> al, choice |-> choice,
                                 code |-> CodeChoice(t, cur, pp, TRUE),
                                 aswritten |-> CodeChoice(t, cur, pp, FALSE),
                                 var4 |-> Inherit(rep.var4, last.var4), var6 |-> Inherit(rep.var6, last.var6),
@@ -198,9 +199,6 @@ LatencyIsMinimumPerKind ==
   TrackSeq => \A k \in Keys :
      LET ls == {seq[i].p.lat : i \in {j \in 1..Len(seq) : seq[j].p.kind = k[1] /\ seq[j].p.relay = k[2]}} IN
      rep.lat[k] = (IF ls = {} THEN 0 ELSE MinSet(ls))
-\* the aggregate does not depend on the order in which the probes of *different* kind/family arrive,
-\* and the latency table does not depend on the order at all: checked as an action property over swaps
-\* of the last two reports is subsumed by the declarative rules above (they are order-free except "first").
 
 (* C28 *)
 LastRound == hist[Len(hist)]
